@@ -300,8 +300,40 @@ def scen_jump(env, cfg, base):
         vloop.run(main())
 
 
+def scen_jump_reconfig(env):
+    """a forward clock jump, later (after the scheduler has recovered) a 'reconfig' shortly before a
+    regular wake-up: the new boundaries must be served like any others"""
+    w0 = env.int('w0', us(9, 59, 30), us(9, 59, 40))
+    with Run(env, BASES['mid'], w0, False) as run:
+        kind, kw, bounds, pred = CONFIGS['plain']
+        td = edzed.TimeDate('td', **kw)
+        t_jump = env.real('t_jump', 0, 10)
+        J = 90 * S          # concrete here (symbolic in scen_jump): keeps the later queries small
+        r = env.real('reconfig_offset', 0, 4)
+        gap = env.real('gap', 0, 9)
+        new_lo, new_hi = us(10, 29, 50), us(10, 29, 55)
+        new_pred = lambda d, x: in_range(x, new_lo, new_hi)
+
+        async def main():
+            task = asyncio.create_task(run.circ.run_forever())
+            await run.circ.wait_init()
+            await asyncio.sleep(t_jump)
+            run.clock.offset_us = J
+            # sleep until the wall clock shows 10:29:45 + r  (the 10:00 wake-up detects the jump meanwhile)
+            target = (us(10, 29, 45) - w0 - J) / 1000000 + r
+            await asyncio.sleep(target - t_jump)
+            env.check('jump-survived', run.circ.error is None and not task.done(), info=lambda: run.circ.error)
+            observe(env, run, td, pred, bounds, 'after-jump')
+            td.event('reconfig', times='10:29:50-10:29:55')
+            observe(env, run, td, new_pred, [new_lo, new_hi], 'after-reconfig', extra='immediately')
+            await asyncio.sleep(gap)
+            observe(env, run, td, new_pred, [new_lo, new_hi], 'after-reconfig', extra='later')
+            await run.circ.shutdown()
+        vloop.run(main())
+
+
 def shards(tier):
-    out = []
+    out = [{'name': 'clock jump, then reconfig before a wake-up', 'scenario': 'scen_jump_reconfig', 'cost': 40}]
     for cfg in CONFIGS:
         bases = ['mid']
         if cfg in ('dates-yearend',):
